@@ -228,6 +228,20 @@ func c08PlayGame(r *ev.Run, g c08Game, judge bool, counters *[4]atomic.Int64) st
 		hC.play(ms)
 		moves = append(moves, ms)
 	}
+	if judge && !r.Expired() {
+		// between games: an instance that played a game and was cleared is in the state of a fresh instance,
+		// and must answer the next request exactly like one (no hidden state survives Clear)
+		sA.Clear()
+		fresh := search.New(g.tt)
+		hF, _ := newHistory(g.start.FEN, g.start.Moves)
+		hG, _ := newHistory(g.start.FEN, g.start.Moves)
+		q := searchReq{FEN: g.start.FEN, Moves: g.start.Moves, Depth: 5, Nodes: -1, SoftNodes: -1, TT: g.tt}
+		rU := runSearch(sA, hF.B, q)
+		rF := runSearch(fresh, hG.B, q)
+		if d := c08Observe(sA, &rU).diff(c08Observe(fresh, &rF), true); d != "" {
+			r.Fail("cleared-vs-fresh", c08Case{Kind: "cleared-vs-fresh", Requests: append(append([]searchReq(nil), soft...), q)}, "after the game from %s and Clear(), the instance answers differently from a fresh one: %s", g.start.FEN, d)
+		}
+	}
 	return transcript.String()
 }
 
